@@ -25,7 +25,13 @@ if [ "$PATCH" != "none" ]; then
 	( cd "$BASE/repo" && { git apply "$PATCH" 2>/tmp/iso/$SLOT/apply.err || git apply --3way "$PATCH" 2>>/tmp/iso/$SLOT/apply.err; } ) || { echo "PATCH DOES NOT APPLY"; cat /tmp/iso/$SLOT/apply.err; exit 4; }
 	git -C "$BASE/repo" reset -q
 fi
-rsync -a --delete --exclude '.git' --exclude 'harness/target*' --exclude 'replays' --exclude 'evidence' /verif/ "$BASE/verif/"
+# the committed state of /verif by default (edits in progress there do not disturb a run); ISO_WORKTREE=1 copies the
+# working tree instead
+if [ "${ISO_WORKTREE:-0}" = 1 ]; then
+	rsync -a --delete --exclude '.git' --exclude 'harness/target*' --exclude 'replays' --exclude 'evidence' /verif/ "$BASE/verif/"
+else
+	rm -rf "$BASE/verif.src" && mkdir -p "$BASE/verif.src" && git -C /verif archive HEAD | tar -x -C "$BASE/verif.src" && rsync -a --delete --exclude 'harness/target*' --exclude 'replays' --exclude 'evidence' "$BASE/verif.src/" "$BASE/verif/" && rm -rf "$BASE/verif.src"
+fi
 mkdir -p "$BASE/verif/evidence"
 sed -i "s#\"/repo/#\"$BASE/repo/#g" "$BASE"/verif/harness/*/Cargo.toml
 sed -i "s#/verif/harness/target/c19_tmp#$BASE/verif/harness/target/c19_tmp#; s#\"/verif/replays\"#\"$BASE/verif/replays\"#" "$BASE/verif/harness/store/src/lib.rs" "$BASE/verif/harness/vcore/src/lib.rs"
